@@ -18,7 +18,9 @@ RULE = (
     "well-formed default-dialect documents from the free-spelling/free-layout "
     "generator and every tests/data label; pvl.new.loads vs pvl.loads; then "
     "4 encoders (built with the New group/object classes on the new side) + "
-    "the no-argument dumps. distinct = (text id); non-trivial = text has at "
+    "the no-argument dumps; plus the same optional loader arguments (grammar=, "
+    "decoder= with real_cls / quantity_cls, matching and mixed dialects) on "
+    "both sides, configurations interleaved in one process. distinct = (text id); non-trivial = text has at "
     "least one statement"
 )
 NEWNAME = {"PVLModule": "PVLModuleNew", "PVLGroup": "PVLGroupNew",
@@ -173,6 +175,96 @@ def case(rec, pvl, new, text, src, wit):
             rec.count("dump_texts_identical")
 
 
+class _Q:
+    """Recording quantity class for quantity_cls= (compared by content)."""
+
+    def __init__(self, value, units):
+        self.value, self.units = value, units
+
+    def __eq__(self, other):
+        return isinstance(other, _Q) and (self.value, self.units) == \
+            (other.value, other.units)
+
+    def __ne__(self, other):
+        return not self.__eq__(other)
+
+    def __hash__(self):
+        return hash((repr(self.value), self.units))
+
+    def __repr__(self):
+        return f"_Q({self.value!r}, {self.units!r})"
+
+
+def kwarg_configs(pvl):
+    """Loader keyword arguments that both pvl.loads and pvl.new.loads accept;
+    each entry builds *fresh* objects (one set per side)."""
+    import decimal
+    G, D = pvl.grammar, pvl.decoder
+    return [
+        ("grammar=Omni", lambda: dict(grammar=G.OmniGrammar())),
+        ("grammar=PVL", lambda: dict(grammar=G.PVLGrammar())),
+        ("grammar=ISIS", lambda: dict(grammar=G.ISISGrammar())),
+        ("decoder=Omni", lambda: dict(decoder=D.OmniDecoder())),
+        ("decoder=Omni(Decimal)", lambda: dict(decoder=D.OmniDecoder(
+            real_cls=decimal.Decimal))),
+        ("decoder=Omni(Q)", lambda: dict(decoder=D.OmniDecoder(quantity_cls=_Q))),
+        ("decoder=PVL", lambda: dict(decoder=D.PVLDecoder())),
+        ("decoder=PVL(Decimal)", lambda: dict(decoder=D.PVLDecoder(
+            real_cls=decimal.Decimal))),
+        ("decoder=ODL", lambda: dict(decoder=D.ODLDecoder())),
+        ("decoder=PDS3", lambda: dict(decoder=D.PDSLabelDecoder())),
+        ("grammar=Omni,decoder=PVL", lambda: dict(grammar=G.OmniGrammar(),
+                                                  decoder=D.PVLDecoder())),
+        ("grammar=PVL,decoder=Omni", lambda: dict(grammar=G.PVLGrammar(),
+                                                  decoder=D.OmniDecoder())),
+        ("grammar=ISIS,decoder=ODL", lambda: dict(grammar=G.ISISGrammar(),
+                                                  decoder=D.ODLDecoder())),
+        ("grammar=PVL,decoder=ODL(Decimal)", lambda: dict(
+            grammar=G.PVLGrammar(), decoder=D.ODLDecoder(real_cls=decimal.Decimal))),
+        ("grammar=Omni,decoder=Omni(Q)", lambda: dict(
+            grammar=G.OmniGrammar(), decoder=D.OmniDecoder(quantity_cls=_Q))),
+    ]
+
+
+def kwargs_case(rec, pvl, new, text, src, wit, rng, k=3):
+    """The same optional arguments handed to both loaders; the configurations
+    follow each other in one process in a random order, so anything one call
+    parks in the module (a cached parser, a grammar lent to a decoder) shows in
+    a later call as a difference from pvl.loads."""
+    cfgs = kwarg_configs(pvl)
+    for name, make in rng.sample(cfgs, k):
+        order = rng.random() < 0.5
+        if order:
+            o = outcome(lambda: pvl.loads(text, **make()))
+            n = outcome(lambda: new.loads(text, **make()))
+        else:
+            n = outcome(lambda: new.loads(text, **make()))
+            o = outcome(lambda: pvl.loads(text, **make()))
+        rec.count(f"kwargs[{name}]")
+        w2 = dict(wit, kwargs=name)
+        if "timeout" in (o[0], n[0]):
+            rec.inconc("CPU budget exceeded " + src)
+            continue
+        if o[0] != n[0]:
+            rec.violation(CHECK, "loads(**kwargs)", "success-differs",
+                          {"default": o[0], "new": n[0], "kwargs": name,
+                           "new_exc": n[1] if n[0] == "exc" else None}, w2,
+                          f"pvl.loads: {o[:2]!r:.150}; pvl.new.loads: {n[:2]!r:.150}")
+            continue
+        if o[0] == "exc":
+            rec.count("kwargs_both_fail")
+            if o[1] != n[1]:
+                rec.violation(CHECK, "loads(**kwargs)", "exception-class-differs",
+                              {"default": o[1], "new": n[1], "kwargs": name}, w2, "")
+            continue
+        d = same(o[1], n[1])
+        if d:
+            rec.violation(CHECK, "loads(**kwargs)", "content-differs",
+                          {"kwargs": name}, w2, f"{d[0]}: {d[1]}")
+            continue
+        rec.count("kwargs_content_equal")
+
+
 def shard(i, n, tier, seed, rec, hb):
     pvl = common.import_pvl()
     try:
@@ -191,6 +283,7 @@ def shard(i, n, tier, seed, rec, hb):
                 break
         text = gt.render(doc.tokens, gt.gen_layout(rng, doc.tokens, "default", "wild"))
         case(rec, pvl, new, text, key, {"seed": key, "text": text[:1500]})
+        kwargs_case(rec, pvl, new, text, key, {"seed": key, "text": text[:1500]}, rng)
     root = os.path.join(common.REPO, "tests", "data")
     files = []
     for dp, dn, fn in os.walk(root):
@@ -209,12 +302,16 @@ def shard(i, n, tier, seed, rec, hb):
         name = os.path.relpath(p, root)
         rec.count("corpus_files")
         case(rec, pvl, new, text, "corpus:" + name, {"file": name})
+        kwargs_case(rec, pvl, new, text, "corpus:" + name, {"file": name},
+                    random.Random(f"C19-kw-{seed}-{name}"), k=6)
 
 
 def finish_kwargs(rec, tier):
     return dict(required_counters=("both_load", "content_equal", "corpus_files",
                                    "dump_texts_identical", "dumps_compared[noargs]",
-                                   "dumps_compared[PDS3]"),
+                                   "dumps_compared[PDS3]", "kwargs_content_equal",
+                                   "kwargs[decoder=Omni(Decimal)]",
+                                   "kwargs[grammar=Omni,decoder=PVL]"),
                 assumptions=["multidict 6.8.0 (pure-Python module) as installed; "
                              "texts with missing values and other ill-formed "
                              "texts are outside the property's quantifier"])
@@ -230,6 +327,8 @@ def replay(data):
             print(w)
             continue
         case(rec, pvl, new, w["text"], "replay", w)
+        kwargs_case(rec, pvl, new, w["text"], "replay", w, random.Random(0),
+                    k=len(kwarg_configs(pvl)))
     for ent in rec.viol.values():
         print("VIOLATES:", ent["record"], ent["witnesses"][0]["message"][:300])
     return 1 if rec.viol else 0
